@@ -8,4 +8,6 @@ var haveGeneric = true
 
 func setGeneric(on bool) { ot.VerifUseGeneric = on }
 
-func mul128Impl(generic bool, a, b ot.Label) (ot.Label, ot.Label) { return ot.VerifMul128(generic, a, b) }
+func mul128Impl(generic bool, a, b ot.Label) (ot.Label, ot.Label) {
+	return ot.VerifMul128(generic, a, b)
+}
